@@ -114,6 +114,7 @@ impl RunSched {
                 Action::Abort | Action::DropStream => self.p.abort_64,
                 Action::Interrupt => self.p.interrupt_64,
                 Action::DropSender => self.p.drop_sender_64,
+                Action::DropCarried(_) => 6,
                 _ => 0,
             };
             if p > 0 && self.rng.chance(p, 64) {
